@@ -723,6 +723,87 @@ fn c01_huge_counts(t: &mut Tctx) {
     let _ = t;
 }
 
+/// Bytes handed to `serialize_bytes` without materialising a `Vec`.
+#[cfg(all(not(miri), target_pointer_width = "64"))]
+struct RawBytes<'a>(&'a [u8]);
+#[cfg(all(not(miri), target_pointer_width = "64"))]
+impl Serialize for RawBytes<'_> {
+    fn serialize<S: serde::Serializer>(&self, s: S) -> Result<S::Ok, S::Error> {
+        s.serialize_bytes(self.0)
+    }
+}
+/// Output flavour that keeps the first 16 bytes and counts the rest.
+#[cfg(all(not(miri), target_pointer_width = "64"))]
+#[derive(Default)]
+struct CountFlavor {
+    head: Vec<u8>,
+    total: u64,
+    blocks: u64,
+}
+#[cfg(all(not(miri), target_pointer_width = "64"))]
+impl postcard::ser_flavors::Flavor for CountFlavor {
+    type Output = CountFlavor;
+    fn try_push(&mut self, b: u8) -> postcard::Result<()> {
+        if self.head.len() < 16 {
+            self.head.push(b);
+        }
+        self.total += 1;
+        Ok(())
+    }
+    fn try_extend(&mut self, data: &[u8]) -> postcard::Result<()> {
+        let room = 16 - self.head.len().min(16);
+        self.head.extend_from_slice(&data[..room.min(data.len())]);
+        self.total += data.len() as u64;
+        self.blocks += 1;
+        Ok(())
+    }
+    fn finalize(self) -> postcard::Result<CountFlavor> {
+        Ok(self)
+    }
+}
+
+/// Strings and byte arrays of more than 4 GiB (a never-touched zero mapping): the length prefix is the varint of
+/// the real length and every payload byte reaches the flavour.  64-bit hosts, native stages only.
+fn c02_huge_payloads(t: &mut Tctx) {
+    #[cfg(all(not(miri), target_pointer_width = "64"))]
+    {
+        if crate::mem::HugeZero::suppressed() {
+            return;
+        }
+        for n in [(1usize << 32) + 5, (1usize << 32) - 1, 1usize << 32] {
+            let map = match crate::mem::HugeZero::new(n) {
+                Some(m) => m,
+                None => {
+                    t.st.count("c02_huge_payload_mapping_refused");
+                    return;
+                }
+            };
+            let mut want_prefix = Vec::new();
+            spec::varint(n as u128, &mut want_prefix);
+            let text = unsafe { std::str::from_utf8_unchecked(map.as_slice()) }; // all NUL: valid UTF-8
+            for (what, r) in [
+                ("str", catch(|| postcard::serialize_with_flavor(text, CountFlavor::default()))),
+                ("bytes", catch(|| postcard::serialize_with_flavor(&RawBytes(map.as_slice()), CountFlavor::default()))),
+                ("size", catch(|| postcard::experimental::serialized_size(text).map(|k| CountFlavor { head: want_prefix.clone(), total: k as u64, blocks: 0 }))),
+            ] {
+                t.st.eval();
+                t.st.count("c02_huge_payload_cases");
+                t.st.nontrivial(fp_mix(0xC02_4616, n as u64 ^ fp(what.as_bytes())));
+                let okay = matches!(&r, Ok(Ok(f)) if f.total == (want_prefix.len() + n) as u64 && f.head[..want_prefix.len().min(f.head.len())] == want_prefix[..]);
+                if !okay {
+                    t.st.violation(
+                        "C02:huge-payload-prefix-differs",
+                        format!("{} of {} bytes: flavour saw {:?}, expected prefix {} and {} bytes in total", what, n, r.map(|x| x.map(|f| (hexs(&f.head), f.total)).map_err(|e| err_label(&e))), hexs(&want_prefix), want_prefix.len() + n),
+                        vec![kv("kind", "huge_payload"), kv("what", what), kv("n", n.to_string())],
+                    );
+                    return;
+                }
+            }
+        }
+    }
+    let _ = t;
+}
+
 fn c02_extras(t: &mut Tctx) {
     if t.tid == 0 {
         for k in 0..64u32 {
@@ -1278,6 +1359,10 @@ pub fn run(cfg: &Cfg, which: &str) -> Report {
     if which == "C02" {
         let s4 = parallel(cfg, 4, |t| c02_extras(t));
         rep.stats.merge(s4);
+        if cfg.tier != Tier::Tiny {
+            let s8 = parallel(&Cfg { threads: 1, ..cfg.clone() }, 8, |t| c02_huge_payloads(t));
+            rep.stats.merge(s8);
+        }
     }
     if which == "C01" {
         let s4 = parallel(cfg, 4, |t| c01_extras(t));
@@ -1361,6 +1446,8 @@ fn replay(cfg: &Cfg, which: &str, p: &std::path::Path) -> Stats {
                 } else {
                     c01_extras(t);
                 }
+            } else if kind == "huge_payload" {
+                c02_huge_payloads(t);
             } else {
                 c02_extras(t);
             }
